@@ -22,6 +22,7 @@ class ClassInfo:
         s.bases = []          # resolved class names (library) or external dotted names
         s.methods = {}        # name -> FunctionDef
         s.ann = []            # own annotated fields: (name, annotation str, value node or None)
+        s.consts = {}         # class-level constants  NAME = <expr>  (not annotated: not dataclass fields)
         s.is_dataclass = False
         s.dc_kwargs = {}
 
@@ -38,6 +39,7 @@ class Program:
         s.aliases = {}      # modname -> {local name: ("lib", modname) | ("libobj", modname, name) | ("ext", dotted)}
         s.classes = {}      # class name -> ClassInfo   (class names are unique in the package)
         s.functions = {}    # (modname, fname) -> FunctionDef
+        s.globals = {}      # (modname, name) -> value expression of a module-level assignment  NAME = <expr>
         s.digest = None
         s._load()
 
@@ -84,11 +86,17 @@ class Program:
                             ci.methods[b.name] = b
                         elif isinstance(b, ast.AnnAssign) and isinstance(b.target, ast.Name):
                             ci.ann.append((b.target.id, ast.unparse(b.annotation), b.value))
+                        elif isinstance(b, ast.Assign) and len(b.targets) == 1 and isinstance(b.targets[0], ast.Name):
+                            ci.consts[b.targets[0].id] = b.value
                     if n.name in s.classes:
                         raise AnchorError(f"duplicate class name {n.name}")
                     s.classes[n.name] = ci
                 elif isinstance(n, ast.FunctionDef):
                     s.functions[(m, n.name)] = n
+                elif isinstance(n, ast.Assign) and len(n.targets) == 1 and isinstance(n.targets[0], ast.Name) and n.targets[0].id != "__all__":
+                    s.globals[(m, n.targets[0].id)] = n.value
+                elif isinstance(n, ast.AnnAssign) and isinstance(n.target, ast.Name) and n.value is not None:
+                    s.globals[(m, n.target.id)] = n.value
         for ci in s.classes.values():
             for b in ci.node.bases:
                 r = s.resolve_static(ci.mod, b)
@@ -184,6 +192,8 @@ class Program:
             return ("class", name)
         if (modname, name) in s.functions:
             return ("func", modname, name)
+        if (modname, name) in s.globals:
+            return ("global", modname, name)
         sub = (modname + "." + name) if modname != "__init__" else name
         if sub in s.modules:
             return ("mod", sub)
